@@ -123,6 +123,9 @@ func (nb *NativeBin) run(caseKey string, replayPath string, timeout time.Duratio
 	cmd := exec.CommandContext(ctx, nb.path, "-test.run", "^TestVerifReplay$", "-test.count=1", "-test.timeout", timeout.String())
 	cmd.Dir = repoDir
 	cmd.Env = append(os.Environ(), "VX_REPLAY="+replayPath, "VX_CASE="+caseKey, "GOMEMLIMIT=3GiB")
+	if nb.race {
+		cmd.Env = append(cmd.Env, "VX_NOLOCK=1")
+	}
 	var buf bytes.Buffer
 	cmd.Stdout = &buf
 	cmd.Stderr = &buf
@@ -194,7 +197,14 @@ func confirmFinding(f *Finding, o nativeOutcome) (bool, string) {
 		return false, "native assertion did not fail"
 	case "RACE":
 		if o.Race {
-			return true, "go race detector reported a data race"
+			// the report must involve one of the library functions of the finding (not harness bookkeeping)
+			tops := raceTopFrames(o.Raw)
+			for _, site := range strings.Split(f.ID, " <-> ") {
+				if fn := runtimeFuncName(site); fn != "" && tops[fn] {
+					return true, "go race detector reported a data race in " + fn
+				}
+			}
+			return false, "race detector reported a different race"
 		}
 		return false, "race detector silent"
 	}
@@ -220,3 +230,47 @@ func writeTempReplay(nd []NondetVal, harness string) string {
 	return f.Name()
 }
 
+
+// runtimeFuncName converts "(*pkg/path.T).m(file.go:12)" (ssa naming) to the runtime's "pkg/path.(*T).m".
+func runtimeFuncName(site string) string {
+	if i := strings.LastIndex(site, "("); i > 0 && strings.HasSuffix(site, ")") {
+		site = site[:i]
+	}
+	if strings.HasPrefix(site, "(*") {
+		j := strings.Index(site, ")")
+		if j < 0 {
+			return ""
+		}
+		inner := site[2:j] // pkg/path.T
+		k := strings.LastIndex(inner, ".")
+		if k < 0 {
+			return ""
+		}
+		return inner[:k] + ".(*" + inner[k+1:] + ")" + site[j+1:]
+	}
+	if strings.HasPrefix(site, "(") {
+		j := strings.Index(site, ")")
+		if j < 0 {
+			return ""
+		}
+		return site[1:j] + site[j+1:]
+	}
+	return site
+}
+
+// raceTopFrames: the innermost function of every access reported by the Go race detector.
+func raceTopFrames(out string) map[string]bool {
+	tops := map[string]bool{}
+	lines := strings.Split(out, "\n")
+	for i, l := range lines {
+		t := strings.TrimSpace(l)
+		if (strings.HasPrefix(t, "Read at ") || strings.HasPrefix(t, "Write at ") || strings.HasPrefix(t, "Previous read at ") || strings.HasPrefix(t, "Previous write at ")) && i+1 < len(lines) {
+			fn := strings.TrimSpace(lines[i+1])
+			if j := strings.LastIndex(fn, "("); j > 0 {
+				fn = fn[:j]
+			}
+			tops[fn] = true
+		}
+	}
+	return tops
+}
